@@ -10,6 +10,7 @@ import (
 	"crypto/tls"
 	"flag"
 	"fmt"
+	"io"
 	"math/rand"
 	"net"
 	"net/http"
@@ -24,6 +25,7 @@ import (
 	"github.com/yandex/pandora/core/engine"
 	"github.com/yandex/pandora/lib/monitoring"
 	"go.uber.org/zap"
+	"go.uber.org/zap/zapcore"
 
 	"verifharness/internal/scentarget"
 	"verifharness/internal/vt"
@@ -77,6 +79,7 @@ type respRun struct {
 	Fired    int          `json:"fired"`    // engine Request counter
 	Answered int          `json:"answered"` // engine Response counter
 	Seen     int          `json:"seen"`     // requests / calls the target saw
+	Variant  string       `json:"variant"`  // plain | debug (debug-level logger, answlog all, httptrace dump+trace)
 	Fatal    bool         `json:"fatal"`    // the documented fatal condition is being provoked
 	Mix      bool         `json:"mix"`
 }
@@ -154,6 +157,7 @@ func grpcAmmo(letters []string) string {
 }
 
 type respPlan struct {
+	debug   bool
 	gun     string
 	posts   string
 	letters []string // per shot; len == shots
@@ -191,6 +195,15 @@ func planAll(mixes int, rnd *rand.Rand, h2 bool) []respPlan {
 	for _, g := range []string{"http", "http/scenario"} {
 		plans = append(plans, respPlan{gun: g, posts: map[string]string{"http": "none", "http/scenario": "all"}[g], letters: repeat("refused", shots), refused: true})
 		plans = append(plans, respPlan{gun: g, posts: map[string]string{"http": "none", "http/scenario": "all"}[g], letters: repeat("timeout", shots), timeout: true})
+	}
+	// the side channels that also touch the response: debug-level logging, answlog, httptrace dump
+	for _, l := range []string{"s200", "s500", "s204", "trunc", "badchunk", "closebefore", "badheader", "shorthdr", "notjson", "nothtml", "empty"} {
+		plans = append(plans, respPlan{gun: "http", posts: "none", letters: repeat(l, shots), debug: true})
+		plans = append(plans, respPlan{gun: "http/scenario", posts: "all", letters: repeat(l, shots), debug: true})
+	}
+	for _, l := range []string{"c0", "c5", "c14", "gtoobig"} {
+		plans = append(plans, respPlan{gun: "grpc", posts: "none", letters: repeat(l, shots), debug: true})
+		plans = append(plans, respPlan{gun: "grpc/scenario", posts: "none", letters: repeat(l, shots), debug: true})
 	}
 	for c := 0; c <= 16; c++ {
 		plans = append(plans, respPlan{gun: "grpc", posts: "none", letters: repeat(fmt.Sprintf("c%d", c), shots)})
@@ -292,7 +305,10 @@ func (t *respTargets) close() {
 
 func runPlan(idx int, p respPlan, t *respTargets, root string) respRun {
 	res := respRun{Run: idx, Gun: p.gun, Posts: p.posts, Shots: shots, Inst: 2, AmmoS: p.letters, Fatal: p.fatal, Mix: p.mix,
-		Samples: []respSample{}}
+		Samples: []respSample{}, Variant: "plain"}
+	if p.debug {
+		res.Variant = "debug"
+	}
 	for _, l := range p.letters {
 		res.Ammo = append(res.Ammo, letterOf(l))
 	}
@@ -341,6 +357,14 @@ func runPlan(idx int, p respPlan, t *respTargets, root string) respRun {
 			ammoType, file, text = "grpc/scenario", filepath.Join(dir, "payload.yaml"), grpcScenarioPayload(p.letters)
 		}
 	}
+	log := zap.NewNop()
+	if p.debug {
+		extra += fmt.Sprintf("      answlog:\n        enabled: true\n        filter: all\n        path: %s\n", filepath.Join(dir, "answ.log"))
+		if strings.HasPrefix(p.gun, "http") {
+			extra += "      httptrace:\n        dump: true\n        trace: true\n"
+		}
+		log = zap.New(zapcore.NewCore(zapcore.NewJSONEncoder(zap.NewProductionEncoderConfig()), zapcore.AddSync(io.Discard), zap.DebugLevel))
+	}
 	seenBefore = seen()
 	if err := os.WriteFile(file, []byte(text), 0o644); err != nil {
 		panic(err)
@@ -354,7 +378,7 @@ func runPlan(idx int, p respPlan, t *respTargets, root string) respRun {
 	m := engine.Metrics{Request: &monitoring.Counter{}, Response: &monitoring.Counter{},
 		InstanceStart: &monitoring.Counter{}, InstanceFinish: &monitoring.Counter{}}
 	conf.Engine.Pools[0].Aggregator = agg
-	eng := engine.New(zap.NewNop(), m, conf.Engine)
+	eng := engine.New(log, m, conf.Engine)
 	res.RunErr = runEngineWith(eng, 120*time.Second)
 	res.Fired, res.Answered = int(m.Request.Get()), int(m.Response.Get())
 	res.Seen = int(seen() - seenBefore)
